@@ -125,7 +125,14 @@ def transport_cases(tier, rng):
             exps, surr = {"pi1": [z1]}, {"pi1": [w1]}
             if rng.random() < 0.3:
                 exps["pi2"], surr["pi2"] = [rng.choice(vs)], [rng.choice(vs)]
-            yield {"nodes": vs, "directed": d, "undirected": u, "X": [x], "Y": [y], "experiments": exps, "surrogates": surr}
+            c = {"nodes": vs, "directed": d, "undirected": u, "X": [x], "Y": [y], "experiments": exps, "surrogates": surr}
+            if rng.random() < 0.4:
+                # user variables whose names contain underscores and digits (selection nodes are recognised by a name prefix)
+                ren = dict(zip(vs, ["X_1", "bmi_score", "Y_2", "w_0_z"]))
+                r = lambda xs: [ren[v] for v in xs]
+                c = {"nodes": r(vs), "directed": [r(e) for e in d], "undirected": [r(e) for e in u], "X": r([x]), "Y": r([y]),
+                     "experiments": {k: r(v) for k, v in exps.items()}, "surrogates": {k: r(v) for k, v in surr.items()}}
+            yield c
 
 
 def _eval_tr(c):
